@@ -138,22 +138,29 @@ def ensure_repo_on_path():
         sys.path.insert(0, p)
 
 
-def validate_robust(validate_fn, traces, ctx=None, depth=0):
-    """Run validate_fn(traces) -> (verdicts, stats).  If TLC cannot evaluate the
-    batch (MachineryError), bisect to isolate the traces it chokes on; those are
-    returned as `unjudged` so that the rest of the batch is still judged."""
+def validate_robust(validate_fn, traces, ctx=None, budget=None):
+    """Run validate_fn(traces) -> (verdicts, stats).  If TLC cannot EVALUATE the
+    batch (MachineryError that is not a parse/semantic error), bisect to isolate
+    the traces it chokes on; those are returned as `unjudged` so that the rest
+    of the batch is still judged.  At most 14 extra TLC runs."""
     from . import tlc
+    budget = budget if budget is not None else [14]
     try:
         v, st = validate_fn(traces)
         return v, st, []
     except tlc.MachineryError as e:
+        msg = str(e)
+        if ('semantic analysis failed' in msg or 'Parsing' in msg[-600:] or 'rc=-9' in msg
+                or 'rc=143' in msg or 'rc=137' in msg):
+            raise
         if len(traces) == 1:
             if ctx:
-                ctx.log('UNJUDGED trace %s: %s' % (traces[0].get('tid'), str(e)[-300:].replace('\n', ' ')))
+                ctx.log('UNJUDGED trace %s: %s' % (traces[0].get('tid'), msg[-300:].replace('\n', ' ')))
             return [], {'cmd': 'bisect'}, [traces[0]]
-        if depth > 12:
+        if budget[0] <= 0:
             raise
+        budget[0] -= 2
         mid = len(traces) // 2
-        v1, s1, u1 = validate_robust(validate_fn, traces[:mid], ctx, depth + 1)
-        v2, s2, u2 = validate_robust(validate_fn, traces[mid:], ctx, depth + 1)
-        return v1 + v2, s1 if 'cmd' in s1 else s2, u1 + u2
+        v1, s1, u1 = validate_robust(validate_fn, traces[:mid], ctx, budget)
+        v2, s2, u2 = validate_robust(validate_fn, traces[mid:], ctx, budget)
+        return v1 + v2, s1 if s1.get('cmd') != 'bisect' else s2, u1 + u2
